@@ -233,6 +233,23 @@ Proof. vm_compute. reflexivity. Qed.
 Example c16_monitor_rejects_second_fn_call :
   flagged (run_check_memo [] [[3;8;1]] [[2;0;6;0;2;0;2;0;2;0;6;0;2;0;2;0]]) 6 = true.
 Proof. vm_compute. reflexivity. Qed.
+(* a (value, error) result: the waiters get the error without the value that fn returned with it (seeded change C16_2C) *)
+Example c16_monitor_rejects_value_dropped_from_error_result :
+  flagged (run_check_memo [] [[3;7;0];[2;0;4]]
+     [[6;0;2;0;2;0;2;0;2;0;2;0;2;0];[5;3145729;5;1;5;1;5;1;5;1;5;1;5;1]]) 7 = true.
+Proof. vm_compute. reflexivity. Qed.
+(* the starter's context is cancelled while the callback runs, the callback fails with an error of its own, and the
+   live waiter is handed that error instead of retrying (seeded change C16_2A) *)
+Example c16_monitor_rejects_error_of_cancelled_starter :
+  flagged (run_check_once [] [[1;0];[3;0;0];[1;0];[3;2;0];[4;0];[5;1;1];[3;1;0];[3;1;0];[3;1;0]]
+     [[1;0];[2;0;6;0];[2;0;6;0;1;0];[2;0;6;0;2;0];[4;0;6;0;2;0];[4;0;7;0;2;0];[4;0;8;0;2;0];[4;0;10;0;2;0];[4;0;9;0;5;2]]) 9 = true.
+Proof. vm_compute. reflexivity. Qed.
+(* the same error is accepted when the starter's context was live when the callback returned and up to the goroutine's
+   ctx.Err() test, and is cancelled only afterwards (here: inside SetResult): the waiter receives the error *)
+Example c16_monitor_accepts_error_of_live_starter :
+  let evs := [[1;0];[3;0;0];[1;0];[3;2;0];[5;1;1];[3;1;0];[3;1;0];[4;0];[3;1;0]] in
+  run_check_once [] evs (run_obs hstep hinit evs) = [] /\ nth 8 (run_obs hstep hinit evs) [] = [4;0;9;0;5;2].
+Proof. vm_compute. split; reflexivity. Qed.
 Example c16_monitor_rejects_early_return :
   flagged (run_check_memo [] [[1];[1]] [[6;0];[6;0;3;0]]) 7 = true.
 Proof. vm_compute. reflexivity. Qed.
